@@ -1,6 +1,6 @@
 """Rules over the stream classes: R-ATOMIC, R-NOWRAP, R-CURSOR, R-COUNT."""
 from .facts import CALLS, CTORS, fmt_term
-from .flow import ACCESSORS, CFG, Engine, cond_facts, mentions, norm_cmp, fmt_fact, final_site_facts
+from .flow import ACCESSORS, CFG, Engine, cond_facts, mentions, norm_cmp, fmt_fact, final_site_facts, substitute
 from .prove import Width, prove_le, definitions, expand, equal_terms
 from .report import ok, bad
 from .extract import AnalysisBroken
@@ -281,6 +281,20 @@ def r_nowrap(F, engine, fn, invariants=(), label=None, entry=frozenset(), delega
                         pf = block_facts(engine, fn, pp) or set()
                     else:
                         pf = set()
+                    # the idioms below are matched on facts restated through the locals' definitions
+                    # (`avail = MAX - n; if (k > avail) throw;` is the pre-check `k <= MAX - n`)
+                    from .prove import definitions as _defs, expand as _expand
+                    _d = _defs(site | pf)
+                    _d = {k: v for k, v in _d.items() if k not in (lt, rt)}
+
+                    def _x(fs):
+                        o = set(fs)
+                        for f in fs:
+                            if f[0] in ("<", "<=", "==", "!="):
+                                o.add((f[0], _expand(f[1], _d), _expand(f[2], _d)))
+                        return o
+                    site = _x(site)
+                    pf = _x(pf)
                     # bounded-sum idiom: y <= L - x with x <= L, so x + y <= L fits the type
                     bounded = False
                     for (u, v) in ((lt, rt), (rt, lt)):
@@ -526,7 +540,7 @@ def lin_diff(hi, lo):
     return frozenset((k, v) for k, v in out.items() if v != 0), ca - cb
 
 
-def r_guard_exact(F, engine, fn, specs, invariants=(), label=None, optional=False):
+def r_guard_exact(F, engine, fn, specs, invariants=(), label=None, optional=False, _depth=0):
     """specs: list of (X, Y) value terms; the operation is in bounds iff X <= Y (over Z). Every throwing guard of fn
     must refuse exactly Y < X, or be a recognised wrap refusal, or be trivially false."""
     engine.analyze(fn, frozenset(invariants))
@@ -589,8 +603,41 @@ def r_guard_exact(F, engine, fn, specs, invariants=(), label=None, optional=Fals
                                    "refusal `%s` differs from the bounds condition by the constant %d" % (fmt_fact(f), d[1] - targets[near[0]][1])))
                 elif not optional:
                     out.append(bad("R-GUARD", inst, fn.loc(cid), fn.qn, req, "refusal `%s` is not the bounds condition" % fmt_fact(f)))
+    missing = [i for i in range(len(specs)) if i not in matched]
+    if missing and not optional and _depth < 2:
+        # the refusal may have been extracted into a checking helper the function calls with the same operands
+        from .facts import CALLS as _CALLS
+        for nd in sorted([n for n in fn.nodes if n["k"] in _CALLS and n.get("args")], key=lambda n: n["id"]):
+            for h in F.callees(nd):
+                if not h.cfg or h.key == fn.key:
+                    continue
+                if S_may_write(F, h):
+                    continue
+                m = {}
+                for a, prm in zip(nd["args"], h.params):
+                    m[fn.term(a)] = ("var", prm["n"], prm["d"])
+                sub_specs = []
+                for i in list(missing):
+                    x, y = specs[i]
+                    x2, y2 = substitute(x, m), substitute(y, m)
+                    if x2 != x or y2 != y:
+                        sub_specs.append((i, (x2, y2, strict_in[i])))
+                if not sub_specs:
+                    continue
+                o2 = r_guard_exact(F, type(engine)(F, engine.S), h, [sp for _, sp in sub_specs], invariants=(), label=inst0, optional=False, _depth=_depth + 1)
+                if o2 and all(o.status == "discharged" for o in o2):
+                    out += o2
+                    for i, _sp in sub_specs:
+                        matched.add(i)
+                        if i in missing:
+                            missing.remove(i)
     for i, (x, y) in enumerate(specs):
         if i not in matched and not optional:
             out.append(bad("R-GUARD", "%s#missing:%s>%s" % (inst0, fmt_term(x), fmt_term(y)), fn.loc(fn.body), fn.qn,
                            "a guard refuses %s > %s" % (fmt_term(x), fmt_term(y)), "no throwing guard with that condition"))
     return out
+
+
+def S_may_write(F, h):
+    """A checking helper only refuses: it stores nothing (cheap syntactic test)."""
+    return any(is_store(nd) for nd in h.nodes)
